@@ -67,6 +67,16 @@ def stream_of(c):
 def impl(c):
     from simfile.notes import NoteData
     cols, ns = stream_of(c)
+    # call history: the same positions met earlier in the process as inexact numbers (floats snap to the tick, fractions do not)
+    from simfile.timing import Beat
+    from fractions import Fraction
+    for o in ns[:40]:
+        f = Fraction(o[0], o[1])
+        for x in (float(f), float(f % 4)):
+            try:
+                Beat(x)
+            except Exception:
+                pass
     nd = NoteData.from_notes(as_stream([G.mk_note(o) for o in ns], c.get("via", "list"), cols), cols)
     text = str(nd)
     back = [G.note_obs(n) for n in nd]
